@@ -77,6 +77,136 @@ type Replay struct {
 	// stress cases: FIN racing a local CloseWrite / Close on fresh streams
 	Stress string `json:"stress,omitempty"` // closewrite | close
 	Rounds int    `json:"rounds,omitempty"`
+	// slow-reader cases: more frames than the read buffer holds, the reader stalls
+	// (virtual time) and only then drains; the FIN arrives last
+	Slow *SlowCase `json:"slow,omitempty"`
+	// mesh-conn case: Write; CloseWrite; Write on the ingress side's net.Conn
+	MeshConn bool `json:"mesh_conn,omitempty"`
+}
+
+type SlowCase struct {
+	Frames   int  `json:"frames"`    // data frames before the FIN frame
+	FinData  bool `json:"fin_data"`  // the FIN frame carries data too
+	StallSec int  `json:"stall_sec"` // how long the reader stays away
+}
+
+func runSlow(t *testing.T, c *vh.Ctx, rp Replay) {
+	sc := *rp.Slow
+	var got []uint64
+	var errs []string
+	eof := false
+	synctest.Test(t, func(t *testing.T) {
+		m := stream.NewManager(stream.DefaultManagerConfig(), identity.AgentID{1})
+		s, err := m.AcceptStream(1, 1, identity.AgentID{9}, "dest", 80)
+		if err != nil {
+			errs = append(errs, err.Error())
+			return
+		}
+		done := make(chan struct{})
+		go func() { // the connection's frame loop
+			defer close(done)
+			for i := 1; i <= sc.Frames; i++ {
+				if err := m.HandleStreamData(1, 0, payload(uint64(i))); err != nil {
+					errs = append(errs, fmt.Sprintf("frame %d: %v", i, err))
+				}
+			}
+			var last []byte
+			if sc.FinData {
+				last = payload(uint64(sc.Frames + 1))
+			}
+			if err := m.HandleStreamData(1, protocol.FlagFinWrite, last); err != nil {
+				errs = append(errs, fmt.Sprintf("fin frame: %v", err))
+			}
+		}()
+		synctest.Wait()
+		time.Sleep(time.Duration(sc.StallSec) * time.Second) // virtual: the reader is away
+		synctest.Wait()
+		for {
+			ctx, cancel := context.WithTimeout(context.Background(), time.Hour)
+			data, err := s.Read(ctx)
+			cancel()
+			if err != nil {
+				eof = errors.Is(err, io.EOF)
+				break
+			}
+			if len(data) == 8 {
+				got = append(got, binary.BigEndian.Uint64(data))
+			}
+		}
+		<-done
+		m.Close()
+	})
+	want := sc.Frames
+	if sc.FinData {
+		want++
+	}
+	ok := eof && len(errs) == 0 && len(got) == want
+	for i := range got {
+		if got[i] != uint64(i+1) {
+			ok = false
+		}
+	}
+	c.Count(fmt.Sprintf("slow-reader:stall=%ds", sc.StallSec))
+	c.Case(fmt.Sprintf("slow/%+v", sc), true, rp)
+	if !ok {
+		c.Fail("data-dropped-on-full-buffer", fmt.Sprintf("%s: %d data frames (+FIN data %v) were delivered while the reader stayed away %d s; the reader then got %d item(s) (eof=%v), frame-loop errors %v: everything pushed before the FIN must be read before end of stream",
+			rp.Name, sc.Frames, sc.FinData, sc.StallSec, len(got), eof, errs), rp)
+	}
+}
+
+// the ingress side's net.Conn: after CloseWrite further writes are refused and
+// nothing follows the FIN frame on the wire
+func runMeshConn(c *vh.Ctx, rp Replay) {
+	n, err := rh.NewNode(rh.TransitMe, nil)
+	if err != nil {
+		c.Fail("panic", err.Error(), rp)
+		return
+	}
+	defer n.Close()
+	n.Connect(3, true)
+	s, err := n.A.VerifStreamManager().AcceptStream(7, 7, rh.PID(3), "dest", 80)
+	if err != nil {
+		c.Fail("panic", err.Error(), rp)
+		return
+	}
+	var shared [crypto.KeySize]byte
+	shared[0] = 1
+	var pa, pb [crypto.KeySize]byte
+	s.SetSessionKey(crypto.DeriveSessionKey(shared, 7, pa, pb, true))
+	mc := n.A.VerifNewMeshConn(rh.PID(3), 7, s)
+	n1, err1 := mc.Write([]byte("before"))
+	cw, _ := mc.(interface{ CloseWrite() error })
+	var errCW error
+	if cw != nil {
+		errCW = cw.CloseWrite()
+	}
+	n2, err2 := mc.Write([]byte("after"))
+	var kinds []string
+	finSeen, dataAfterFin := false, false
+	for _, rs := range n.Collect() {
+		if rs.F.Type != protocol.FrameStreamData {
+			continue
+		}
+		if rs.F.Flags&protocol.FlagFinWrite != 0 {
+			finSeen = true
+			kinds = append(kinds, "FIN")
+		} else {
+			if finSeen {
+				dataAfterFin = true
+			}
+			kinds = append(kinds, "DATA")
+		}
+	}
+	c.Count("mesh-conn")
+	c.Case("meshconn", true, rp)
+	if err1 != nil || n1 != 6 || errCW != nil || !finSeen {
+		c.Fail("harness-timeout", fmt.Sprintf("%s: scenario could not be set up: write1 (%d, %v), CloseWrite %v, frames %v", rp.Name, n1, err1, errCW, kinds), rp)
+		return
+	}
+	if err2 == nil || n2 != 0 || dataAfterFin {
+		c.Fail("write-accepted-after-local-half-close", fmt.Sprintf("%s: Write; CloseWrite; Write on the mesh connection: the second Write returned (%d, %v) and the frames on the wire are %v - writes after the local half-close must be refused",
+			rp.Name, n2, err2, kinds), rp)
+	}
 }
 
 // ---------------------------------------------------------------------------
@@ -782,6 +912,10 @@ func TestVerif(t *testing.T) {
 			runEndpoint(c, rp)
 		case rp.Stress != "":
 			runStress(c, rp)
+		case rp.Slow != nil:
+			runSlow(t, c, rp)
+		case rp.MeshConn:
+			runMeshConn(c, rp)
 		default:
 			runOne(rp)
 		}
@@ -833,6 +967,10 @@ func TestVerif(t *testing.T) {
 				xcoq = append(xcoq, s)
 			}
 		}
+		for i, sc := range []SlowCase{{64, true, 1}, {65, false, 5}, {66, true, 60}, {70, true, 5}, {10, true, 60}} {
+			runSlow(t, c, Replay{Name: fmt.Sprintf("slow-reader-%d", i), Slow: &sc})
+		}
+		runMeshConn(c, Replay{Name: "meshconn-write-after-closewrite", MeshConn: true})
 		runStress(c, Replay{Name: "fin-vs-closewrite", Stress: "closewrite", Rounds: c.N(500, 40000)})
 		runStress(c, Replay{Name: "fin-vs-close", Stress: "close", Rounds: c.N(500, 40000)})
 	}
